@@ -34,6 +34,7 @@ type world struct {
 	socks   []*mSock
 	vs      []vnet.UDPConnLike
 
+	activity *atomic.Int64 // moves whenever a router takes a datagram from its queue
 	mu       sync.Mutex
 	captures map[uint64][]capEvent // datagram id -> captures in order
 	nonce    uint32
@@ -69,7 +70,7 @@ var depNames = [...]string{"EI", "AD", "APD"}
 
 // genTopology draws and builds the network through the public API.
 func genTopology(t *rapid.T, c *ev.Case, w *world) *world {
-	*w = world{t: t, c: c, captures: map[uint64][]capEvent{}, nonce: rapid.Uint32().Draw(t, "nonce"), start: time.Now()}
+	*w = world{t: t, c: c, activity: new(atomic.Int64), captures: map[uint64][]capEvent{}, nonce: rapid.Uint32().Draw(t, "nonce"), start: time.Now()}
 	lf := quietLogger()
 	addRouter := func(cidr string, parent *mRouter, cfg *vnet.RouterConfig) *mRouter {
 		_, ipn, _ := net.ParseCIDR(cidr)
@@ -91,6 +92,8 @@ func genTopology(t *rapid.T, c *ev.Case, w *world) *world {
 		idx := mr.idx
 		nth := 0
 		vr.AddChunkFilter(func(ch vnet.Chunk) bool {
+			w.activity.Add(1) // every datagram a router takes from its queue passes here
+			defer w.activity.Add(1)
 			if dawdle > 0 {
 				nth++
 				if nth%2 == 0 {
@@ -268,7 +271,13 @@ func (w *world) close() {
 func (w *world) quiesce() {
 	deadline := time.Now().Add(5 * time.Second)
 	okRuns := 0
+	lastActivity := int64(-1)
 	for okRuns < 2 {
+		// The goroutine snapshot and the queue lengths are not read at one instant: a
+		// datagram that leaves one queue right after the snapshot can be missed by both.
+		// Whatever leaves a queue passes the capture filter, so the pass only counts if
+		// the activity counter did not move while it was taken, nor since the last pass.
+		act := w.activity.Load()
 		idle, total := 0, 0
 		for _, g := range sched.Snapshot() {
 			for _, f := range g.Frames {
@@ -288,8 +297,9 @@ func (w *world) quiesce() {
 		// a loop waiting on its MinDelay timer is parked in a select too: the
 		// queues must be empty as well
 		// (loops of earlier, failed cases may still be around: they are idle for ever)
-		if total >= len(w.routers) && idle == total && queued == 0 {
+		if total >= len(w.routers) && idle == total && queued == 0 && w.activity.Load() == act && (okRuns == 0 || act == lastActivity) {
 			okRuns++
+			lastActivity = act
 		} else {
 			okRuns = 0
 			if time.Now().After(deadline) {
